@@ -140,3 +140,99 @@ package handshake
 //@   trusted AES-GCM tag over the Retry pseudo-packet (external cryptography); modelled as a function of its arguments' identity only
 //@   ensures result != nil
 //@   modifies nothing
+
+// How the abstract predicate addrmatch(token, addr) is computed (checked against the body; callers use the contract above):
+// a token matches an address only if the WHOLE encoding of the address equals the WHOLE encoding stored in the token —
+// one equality test of two complete byte strings, no prefix/suffix/family-specific shortcut.
+//@ func (t *Token) ValidateRemoteAddr#impl
+//@   props C14
+//@   ensures [one-whole-string-equality] called("Equal") == 1 && result == lastresultb("Equal")
+//@   ensures [token-side-is-the-stored-encoding] samearray(callarg("Equal", 0, 1), t.encodedRemoteAddr) && len(callarg("Equal", 0, 1)) == len(t.encodedRemoteAddr)
+//@   ensures [address-side-is-its-full-encoding] called("encodeRemoteAddr") == 1 && len(callarg("Equal", 0, 0)) == len(lastresult("encodeRemoteAddr"))
+//@   modifies nothing
+
+// ---------------- long header (Initial / Handshake / 0-RTT) protection: nonce construction and receive state (C05) ----------------
+// xorNonceAEAD: the 8-byte packet number is XORed into the last 8 bytes of the IV for the call and XORed out again
+// afterwards (RFC 9001 5.3); the wrapped AEAD itself is external cryptography.
+//@ func (f *xorNonceAEAD) Open
+//@   props C05
+//@   arith bv
+//@   requires f.aead != nil && len(nonce) == 8 && separate(nonce, f) && separate(nonce, out) && separate(out, f)
+//@   ensures [iv-restored] forall(k, 0, 12, f.nonceMask[k] == old(f.nonceMask[k]))
+//@   modifies f.nonceMask, out[*]
+//@ loop (f *xorNonceAEAD) Open #0
+//@   invariant 0 <= rangeidx && rangeidx <= 8
+//@   invariant forall(k, 0, 12, f.nonceMask[k] == ite(k >= 4 && k < 4 + rangeidx, old(f.nonceMask[k]) ^ nonce[k-4], old(f.nonceMask[k])))
+//@   modifies f.nonceMask
+//@ loop (f *xorNonceAEAD) Open #1
+//@   invariant 0 <= rangeidx && rangeidx <= 8
+//@   invariant forall(k, 0, 12, f.nonceMask[k] == ite(k >= 4 + rangeidx, old(f.nonceMask[k]) ^ nonce[k-4], old(f.nonceMask[k])))
+//@   modifies f.nonceMask
+//@ func (f *xorNonceAEAD) Seal
+//@   props C05
+//@   arith bv
+//@   requires f.aead != nil && len(nonce) == 8 && separate(nonce, f) && separate(nonce, out) && separate(out, f)
+//@   ensures [iv-restored] forall(k, 0, 12, f.nonceMask[k] == old(f.nonceMask[k]))
+//@   modifies f.nonceMask, out[*]
+//@ loop (f *xorNonceAEAD) Seal #0
+//@   invariant 0 <= rangeidx && rangeidx <= 8
+//@   invariant forall(k, 0, 12, f.nonceMask[k] == ite(k >= 4 && k < 4 + rangeidx, old(f.nonceMask[k]) ^ nonce[k-4], old(f.nonceMask[k])))
+//@   modifies f.nonceMask
+//@ loop (f *xorNonceAEAD) Seal #1
+//@   invariant 0 <= rangeidx && rangeidx <= 8
+//@   invariant forall(k, 0, 12, f.nonceMask[k] == ite(k >= 4 + rangeidx, old(f.nonceMask[k]) ^ nonce[k-4], old(f.nonceMask[k])))
+//@   modifies f.nonceMask
+//@ func (f *xorNonceAEAD) NonceSize
+//@   props C05
+//@   ensures result == 8
+//@   modifies nothing
+//@ func (f *xorNonceAEAD) Overhead
+//@   props C05
+//@   requires f.aead != nil
+//@   modifies nothing
+
+// longHeaderOpener: the reference for decoding truncated packet numbers is the HIGHEST packet number that was successfully
+// unprotected — a late (reordered) packet never moves it backwards, a packet that fails authentication never moves it
+// at all, and every failure is reported as ErrDecryptionFailed.
+//@ func (o *longHeaderOpener) Open
+//@   props C05
+//@   requires o.aead != nil && o.aead.aead != nil && separate(dst, o) && separate(dst, o.aead) && separate(o, o.aead) && 0 <= pn && pn <= 4611686018427387903
+//@   ensures [highest-never-decreases] o.highestRcvdPN >= old(o.highestRcvdPN)
+//@   ensures [highest-on-success] implies(result1 == nil, o.highestRcvdPN == max(old(o.highestRcvdPN), pn))
+//@   ensures [highest-only-on-success] implies(result1 != nil, o.highestRcvdPN == old(o.highestRcvdPN))
+//@   ensures [failure-kind] implies(result1 != nil, result1 == ErrDecryptionFailed)
+//@   ensures [authenticated-by-the-aead] called("(*xorNonceAEAD).Open") == 1 && iff(result1 == nil, lastresult("(*xorNonceAEAD).Open", 1) == nil)
+//@   modifies o.highestRcvdPN, o.nonceBuf, o.aead.nonceMask, dst[*]
+//@ func (o *longHeaderOpener) DecodePacketNumber
+//@   props C05
+//@   arith bv
+//@   requires 1 <= wirePNLen && wirePNLen <= 4 && -1 <= o.highestRcvdPN && o.highestRcvdPN <= 4611686018427387903 && 0 <= wirePN && wirePN < protocol.pnwin(uint8(wirePNLen))
+//@   ensures [rfc-a3-relative-to-highest-received] result == protocol.pndec(uint8(wirePNLen), int64(o.highestRcvdPN), int64(wirePN))
+//@   modifies nothing
+//@ func (s *longHeaderSealer) Seal
+//@   props C05
+//@   requires s.aead != nil && s.aead.aead != nil && separate(dst, s) && separate(dst, s.aead) && separate(s, s.aead)
+//@   ensures [sealed-by-the-aead] called("(*xorNonceAEAD).Seal") == 1
+//@   modifies s.nonceBuf, s.aead.nonceMask, dst[*]
+//@ func (s *longHeaderSealer) Overhead
+//@   props C05
+//@   requires s.aead != nil && s.aead.aead != nil
+//@   modifies nothing
+
+// ---------------- 0-RTT acceptance on the server (C13: "never if rejected") ----------------
+// Early data is accepted only if ALL of these hold: the ticket parses, the client is actually using 0-RTT, the transport
+// parameters remembered in the ticket are still valid for 0-RTT, and this server allows 0-RTT at all.
+//@ func (h *cryptoSetup) handleSessionTicket
+//@   props C13
+//@   requires h.ourParams != nil
+//@   ensures [only-if-allowed] implies(result, h.allow0RTT)
+//@   ensures [only-if-used] implies(result, using0RTT)
+//@   ensures [only-if-ticket-parses-and-parameters-still-valid] implies(result, called("(*sessionTicket).Unmarshal") == 1 && lastresult("(*sessionTicket).Unmarshal") == nil && called("(*TransportParameters).ValidFor0RTT") == 1 && lastresultb("(*TransportParameters).ValidFor0RTT"))
+//@   modifies nothing
+//@ func (t *sessionTicket) Unmarshal
+//@   props C08 C13
+//@   arith bv
+//@   ensures [revision-checked] implies(result == nil, called("Parse") == 1 && lastresult("Parse", 2) == nil && lastresult("Parse", 0) == 5)
+//@   ensures [parameters-parsed] implies(result == nil, t.Parameters != nil && called("(*TransportParameters).UnmarshalFromSessionTicket") == 1 && lastresult("(*TransportParameters).UnmarshalFromSessionTicket") == nil)
+//@   ensures [failure-keeps-ticket] implies(result != nil, t.Parameters == old(t.Parameters))
+//@   modifies t.Parameters
